@@ -144,6 +144,41 @@ class Spec:
 # ('nbroken', path, [spec], variant)   container.cssText = almost a rule (BROKEN_TAILS)
 # ('ntext', path, [spec]) ('mode', raising) ('insl', [spec], idx|None) ('ninsl', path, [spec], idx|None)
 
+# operations on declaration blocks / properties of the styled rule at `path` (modelled: Model/SheetBlocks.lean)
+# ('dnew', path, [[name, wf], ...], form)  form 0: rule.style = CSSStyleDeclaration(cssText=…), 1: rule.style = text,
+#                                          2: rule.cssText = <same prelude>{text}
+# ('dshare', path, src) rule.style = other.style      ('dtext', path, items) rule.style.cssText = text
+# ('dset', path, name, wf, empty, replace) setProperty / item assignment   ('dsetobj', path, name) setProperty(Property)
+# ('ddel', path, name) removeProperty / del style[name]
+DNAMES = ['top', 'color', 'right', 'margin-top']      # the names the operations use; the names of the declarations the
+                                                      # generated rules are made with (left, margin, font-family) are not among them
+DOPS = ('dnew', 'dshare', 'dtext', 'dset', 'dsetobj', 'ddel')
+STYLED = ('STYLE_RULE', 'PAGE_RULE', 'FONT_FACE_RULE', 'MARGIN_RULE')
+
+
+def cname(name):
+    return enc(name) if name in DNAMES else '-'
+
+
+def collapse(l):
+    """entries of properties whose name is outside the pool (shown as `-`) are shown once per run (see Drv/C09.lean)"""
+    out = []
+    for x in l:
+        if out and out[-1] == x and x.startswith('-'):
+            continue
+        out.append(x)
+    return out
+
+
+def items_text(items):
+    # a declaration without a value is not well-formed
+    return '; '.join('%s: 1px' % n if wf else '%s: ' % n for n, wf in items)
+
+
+def items_proto(items):
+    return ','.join('%s:%d' % (enc(n), int(bool(wf))) for n, wf in items) or '-'
+
+
 # how a nested text is broken: content after the closing brace, or the block is not closed
 BROKEN_TAILS = ['} ', '}/*c*/', '};', '} .z{left:0}', '}}', '} @x y;', '}\n', 'UNCLOSED', 'NOBLOCK']
 
@@ -182,6 +217,12 @@ def ops_from_json(data):
             out.append((t, tuple(op[1]), [Spec.from_json(s) for s in op[2]]))
         elif t in ('ndel', 'decl'):
             out.append((t, tuple(op[1]), op[2]))
+        elif t in ('dnew', 'dtext'):
+            out.append((t, tuple(op[1]), [tuple(i) for i in op[2]]) + tuple(op[3:]))
+        elif t == 'dshare':
+            out.append((t, tuple(op[1]), tuple(op[2])))
+        elif t in ('dset', 'dsetobj', 'ddel'):
+            out.append((t, tuple(op[1])) + tuple(op[2:]))
         elif t == 'nbroken':
             out.append((t, tuple(op[1]), [Spec.from_json(s) for s in op[2]], op[3]))
         else:
@@ -238,14 +279,26 @@ def op_line(op):
         return 'ninsl %s %s %s' % (path(op[1]), specs(op[2]), idx(op[3]))
     if t == 'mode':
         return 'mode %d' % op[1]
+    if t == 'dnew':
+        return 'dnew %s %s %d' % (path(op[1]), items_proto(op[2]), op[3])
+    if t == 'dshare':
+        return 'dshare %s %s' % (path(op[1]), path(op[2]))
+    if t == 'dtext':
+        return 'dtext %s %s' % (path(op[1]), items_proto(op[2]))
+    if t == 'dset':
+        return 'dset %s %s %d %d %d' % (path(op[1]), enc(op[2]), op[3], op[4], op[5])
+    if t == 'dsetobj':
+        return 'dsetobj %s %s' % (path(op[1]), enc(op[2]))
+    if t == 'ddel':
+        return 'ddel %s %s' % (path(op[1]), enc(op[2]))
     if t == 'decl':
-        return None         # not an operation of the model
+        return None         # not an operation of the model (kept for the witnesses of the fixed findings)
     raise ValueError(op)
 
 
 def op_key(op):
-    return tuple(x.key() if isinstance(x, Spec) else tuple(s.key() for s in x) if isinstance(x, list) else x
-                 for x in op)
+    return tuple(x.key() if isinstance(x, Spec) else tuple(s.key() if isinstance(s, Spec) else tuple(s) for s in x)
+                 if isinstance(x, list) else x for x in op)
 
 
 # --------------------------------------------------------------------------------------------------
@@ -433,6 +486,29 @@ class Walker:
             specs.append(s)
         return specs
 
+    def ditems(self):
+        r = self.rng
+        return [(r.choice(DNAMES), int(r.random() < 0.85)) for _ in range(r.randint(0, 3))]
+
+    def decl_op(self, st, styled):
+        r = self.rng
+        path = r.choice(styled)
+        x = r.random()
+        if x < 0.2:
+            form = r.randrange(3)
+            rule = st.at(path)
+            if form == 2 and (rule.type == rule.PAGE_RULE or (rule.type == rule.STYLE_RULE and
+                                                              rule.selectorList._getUsedUris())):
+                form = 1    # the text of an @page rule is an operation on its rule list; a selector with a prefix is not rewritten
+            return ('dnew', path, self.ditems(), form)
+        if x < 0.35:
+            return ('dtext', path, self.ditems())
+        if x < 0.65:
+            return ('dset', path, r.choice(DNAMES), int(r.random() < 0.9), int(r.random() < 0.1), int(r.random() < 0.8))
+        if x < 0.8:
+            return ('dsetobj', path, r.choice(DNAMES))
+        return ('ddel', path, r.choice(DNAMES))
+
     def next_op(self, st):
         """st: HistState (implementation side) — used to pick indexes, paths and declared URIs"""
         r = self.rng
@@ -465,17 +541,16 @@ class Walker:
             return ('nsdel', r.choice(self.PRE))
         if x < 0.755:
             return ('mode', int(r.random() < 0.6))
-        if x < 0.80:
-            styled = [p for p, rule, _ in st.walk() if rule.type in (rule.STYLE_RULE, rule.PAGE_RULE, rule.FONT_FACE_RULE,
-                                                                      rule.MARGIN_RULE)]
+        if x < 0.83:
+            styled = [p for p, rule, _ in st.walk() if rule.typeString in STYLED]
             if styled:
-                return ('decl', r.choice(styled), r.randint(0, 9))
+                return self.decl_op(st, styled)
         if not conts:
             return ('add', self.spec(r.choice(['media', 'page']), declared), 0)
         path, c = r.choice(conts)
         m = len(c.cssRules)
         is_media = c.type == c.MEDIA_RULE
-        if x < 0.80 + 0.03:
+        if x < 0.83 + 0.02:
             good = ['style', 'comment', 'unknown', 'page', 'media', 'style'] if is_media else ['margin']
             ks = [r.choice(good) if r.random() < 0.8 else r.choice(ALLKINDS) for _ in range(r.randint(0, 4))]
             return ('ninsl', path, [self.spec(k, declared, 1) for k in ks], self.index(m))
@@ -522,8 +597,11 @@ class HistState:
     def __init__(self, sheet):
         self.sheet = sheet
         self.tracked = {}
-        self.decls = {}           # id -> (declaration block, type of the rule it was seen in)
-        self.props = {}           # id -> (property, ...)
+        self.decls = {}           # id -> (declaration block, type of the rule it was seen in)   (oracle's registry)
+        self.props = {}           # id -> property object made by an operation of the history
+        self.oprops = {}          # id -> (property, type of the rule) (oracle's registry)
+        self.blocks = {}          # id -> every declaration block seen as the style of a rule (dump's registry)
+        self.bprops = {}          # id -> every property seen in such a block
         self.taint_obj = {}       # id(obj) -> finding id (clause-specific: parent links / nested kind)
         self.taint_order = None   # finding id while the top-level order is broken by a known finding
 
@@ -625,6 +703,48 @@ class HistState:
             elif t == 'mode':
                 cssutils.log.raiseExceptions = bool(op[1])
                 r = None
+            elif t in DOPS:
+                rule = self.at(op[1])
+                if rule.typeString not in STYLED:
+                    return 'ERR NoSuchPath'
+                if t == 'dnew':
+                    text, form = items_text(op[2]), op[3]
+                    if form == 0:
+                        rule.style = css.CSSStyleDeclaration(cssText=text)
+                    elif form == 1:
+                        rule.style = text
+                    elif rule.type == rule.STYLE_RULE:
+                        rule.cssText = '.a{%s}' % text
+                    elif rule.type == rule.FONT_FACE_RULE:
+                        rule.cssText = '@font-face{%s}' % text
+                    elif rule.type == rule.MARGIN_RULE:
+                        rule.cssText = '%s{%s}' % (rule.margin, text)
+                    else:
+                        raise ValueError(op)
+                elif t == 'dshare':
+                    other = self.at(op[2])
+                    if other.typeString not in STYLED:
+                        return 'ERR NoSuchPath'
+                    rule.style = other.style
+                elif t == 'dtext':
+                    rule.style.cssText = items_text(op[2])
+                elif t == 'dset':
+                    name, wf, empty, replace = op[2:6]
+                    value = '' if empty else '1px' if wf else '}'
+                    if replace and not empty and wf and len(name) % 2:
+                        rule.style[name] = value                      # item assignment = setProperty(name, value, None)
+                    else:
+                        rule.style.setProperty(name, value, replace=bool(replace))
+                elif t == 'dsetobj':
+                    p = css.Property(op[2], '2px')
+                    self.props[id(p)] = p
+                    rule.style.setProperty(p)
+                elif t == 'ddel':
+                    if len(op[2]) % 2:
+                        del rule.style[op[2]]
+                    else:
+                        rule.style.removeProperty(op[2])
+                r = None
             elif t == 'decl':
                 # edits of the declaration block of the rule at `path` (implementation only: the structure of the
                 # sheet does not change, the model is not told; the oracle checks style.parentRule / property.parent)
@@ -667,7 +787,7 @@ class HistState:
         except AttributeError as e:
             return 'ERR AttributeError'
         except IndexError:
-            if t in ('nins', 'ninsl', 'ndel', 'ntext', 'decl'):
+            if t in ('nins', 'ninsl', 'ndel', 'ntext', 'decl') + DOPS:
                 return 'ERR NoSuchPath'     # the history addresses a nested list that is not there (any more)
             raise
         if r is None:
@@ -678,11 +798,25 @@ class HistState:
 
     # -- canonical dump (same format as Drv/C09.lean)
     def dump(self):
+        from cssutils.css import Property
         sheet = self.sheet
         live = set()
         for _, r, _ in self.walk():
             live.add(id(r))
             self.tracked[id(r)] = r
+
+        def props_of(d):
+            return [x.value for x in d.seq if isinstance(x.value, Property)]
+
+        def block(d, r):
+            pr = d._parentRule
+            link = '-' if pr is None else 'R' if pr is r else 'X'
+            ps = []
+            for p in props_of(d):
+                self.bprops[id(p)] = p
+                ps.append(cname(p.name) + ('-' if p._parent is None else 'P' if p._parent is d else 'X'))
+            return '{' + link + '+'.join(collapse(ps)) + '}'
+        held = set()
 
         def show(r, container):
             pss = 'S' if r._parentStyleSheet is sheet else '-' if r._parentStyleSheet is None else 'T'
@@ -701,6 +835,11 @@ class HistState:
             elif r.type == r.MARGIN_RULE:
                 extra = '~' + enc(r.margin or '')
             s = '%d%s%s%s' % (r.type, pss, link, extra)
+            if r.typeString in STYLED:
+                d = r._style
+                self.blocks[id(d)] = d
+                held.add(id(d))
+                s += block(d, r)
             if self.is_container(r):
                 s += '(' + ','.join(show(k, r) for k in r.cssRules) + ')'
             return s
@@ -715,8 +854,19 @@ class HistState:
         self.gone_roots = [o for o in nonlive if id(o) not in contained]
         gone = sorted(show(o, None) for o in self.gone_roots)
         ns = sorted('%s=%s' % (enc(p), enc(u)) for p, u in sheet.namespaces.namespaces.items())
-        return 'enc=%s ns=%s rules=%s gone=%s' % (enc(sheet.encoding), ','.join(ns) or '-', ','.join(rules) or '-',
-                                                  ';'.join(gone) or '-')
+        # replaced blocks: every block seen as a rule's style that no rule object holds any more; loose properties:
+        # every property seen in a block or made by an operation that no block seen holds
+        gb = sorted(block(d, None) for i, d in self.blocks.items() if i not in held)
+        inblock = set()
+        for d in self.blocks.values():
+            for p in props_of(d):
+                inblock.add(id(p))
+        loose = [p for i, p in list(self.bprops.items()) + list(self.props.items()) if i not in inblock]
+        loose = {id(p): p for p in loose}.values()
+        gp = collapse(sorted(cname(p.name) + ('-' if p._parent is None else 'X') for p in loose))
+        return 'enc=%s ns=%s rules=%s gone=%s gb=%s gp=%s' % (
+            enc(sheet.encoding), ','.join(ns) or '-', ','.join(rules) or '-', ';'.join(gone) or '-',
+            ';'.join(gb) or '-', ','.join(gp) or '-')
 
     def kinds_tree(self, sheet=None):
         sheet = sheet or self.sheet
